@@ -93,6 +93,7 @@ public:
     bool usedSasl2 = false;
     bool bound = false;
     bool sessionReady = false;       // the server has sent the element that completes negotiation
+    bool resumedHere = false;        // this connection resumed an earlier stream-management session (the world's truth)
     qint64 readyOffset = -1;         // bytes written to the client up to and including that element
     qint64 bytesWritten = 0;
     QString streamId;
